@@ -1,20 +1,422 @@
 // ======================================================================================
 // units/C07/driver.rs — lib/executor/driver.rs under contract: Driver::{new, step, program, address,
-// location, state, state_mut}, the step relation `step_allows` / `step_spec` (from the property text) and
-// the determinism lemma.
+// location, state, state_mut}, the step relation `step_allows` / `step_spec` (written from the property
+// text) and the determinism lemma.
 // ======================================================================================
 //@ source lib/executor/driver.rs
 //@ item struct Driver
+
+// ---- what the executor needs of a program ---------------------------------------------------------------
+
+/// every operation of the block is `op_sane` (well-formed constant leaves, widths in 1..=MAX_BITS)
+pub open spec fn block_ok(b: il::Block) -> bool {
+    forall|q: int| 0 <= q < b.instructions@.len() ==> op_sane((#[trigger] b.instructions@[q]).operation)
+}
+
+pub open spec fn edge_ok(e: il::Edge) -> bool {
+    e.condition matches Some(c) ==> expr_sane(c)
+}
+
+pub open spec fn fn_ok(f: il::Function) -> bool {
+    &&& forall|b: usize| #![trigger f.control_flow_graph.graph.vertices@[b]]
+            f.control_flow_graph.has_block(b) ==> block_ok(f.control_flow_graph.blocks_view()[b])
+    &&& forall|h: usize, t: usize| #![trigger f.control_flow_graph.graph.edges@[(h, t)]]
+            f.control_flow_graph.has_edge(h, t) ==> edge_ok(f.control_flow_graph.edges_view()[(h, t)])
+}
+
+pub open spec fn prog_ok(p: il::Program) -> bool {
+    forall|k: usize| #![trigger p.functions@[k]] p.functions@.contains_key(k) ==> fn_ok(*p.functions@[k])
+}
+
+/// the function a program location names, when the program has it
+pub open spec fn loc_fn(p: il::Program, l: il::ProgramLocation) -> Option<il::Function> {
+    match l.function_index {
+        Some(k) => if p.functions@.contains_key(k) { Some(*p.functions@[k]) } else { None },
+        None => None,
+    }
+}
+
+/// the location applies to the program (`ProgramLocation::apply` succeeds, unit C18)
+pub open spec fn loc_applies(p: il::Program, l: il::ProgramLocation) -> bool {
+    loc_fn(p, l) matches Some(f) && fl_applies(f, l.function_location)
+}
+
+/// a location that applies denotes a location OF its function (the one case this excludes: `EmptyBlock(b)` for a
+/// block that has instructions, which `apply` accepts - unit C18)
+pub open spec fn loc_ok(p: il::Program, l: il::ProgramLocation) -> bool {
+    loc_applies(p, l) ==> loc_valid(loc_fn(p, l)->Some_0, fl_loc(l.function_location))
+}
+
+/// the program location of (abstract) location `l2` of function `f`
+pub open spec fn ploc(f: il::Function, l2: Loc) -> il::ProgramLocation {
+    il::ProgramLocation { function_index: f.index, function_location: loc_fl(l2) }
+}
+
+/// the program an `RC` handle holds
+pub open spec fn pval(rc: RC<il::Program>) -> il::Program { *rc }
+
+/// the owned form of a borrowed location (what `ProgramLocation::from` yields, unit C18)
+pub open spec fn own_loc(x: il::RefProgramLocation) -> il::ProgramLocation {
+    il::ProgramLocation { function_index: x.function.index, function_location: loc_fl(loc_of(x.function_location)) }
+}
+
+/// `op` is the operation of the instruction with index `i` in block `b` of `f`
+pub open spec fn op_at(f: il::Function, b: usize, i: usize, op: Operation) -> bool {
+    let blk = f.control_flow_graph.blocks_view()[b];
+    exists|q: int| #[trigger] instr_at(blk, q, i) && blk.instructions@[q].operation == op
+}
+
+/// the instruction with index `i` in block `b` of `f` has address `a`
+pub open spec fn has_addr(f: il::Function, b: usize, i: usize, a: u64) -> bool {
+    let blk = f.control_flow_graph.blocks_view()[b];
+    exists|q: int| #[trigger] instr_at(blk, q, i) && blk.instructions@[q].address == Some(a)
+}
+
+/// data invariant of a driver: what `step` needs and re-establishes
+pub open spec fn driver_wf(d: Driver) -> bool {
+    &&& (*d.program).program_wf()
+    &&& prog_ok(*d.program)
+    &&& loc_ok(*d.program, d.location)
+    &&& store_wf(store_of(d.state))
+    &&& d.state.memory.wf()
+}
+
+/// no address wrap (unit C08's precondition of `store`) for the operation the driver is about to execute
+pub open spec fn step_fits(p: il::Program, l: il::ProgramLocation, s: Sigma) -> bool {
+    (loc_fn(p, l) is Some && l.function_location is Instruction) ==>
+        forall|op: Operation| #[trigger] op_at(loc_fn(p, l)->Some_0, l.function_location->Instruction_0, l.function_location->Instruction_1, op)
+            ==> store_fits(op, s)
+}
+
+// ---- the step relation, from the property statement ----------------------------------------------------------
+
+/// what a step yields, as a mathematical value: the (possibly extended) program, the new location and the
+/// WHOLE new state; or an error
+pub enum StepRes {
+    Next(il::Program, il::ProgramLocation, Sigma),
+    Fail(Error),
+}
+
+pub open spec fn step_res(r: Result<Driver, Error>) -> StepRes {
+    match r {
+        Ok(d) => StepRes::Next(*d.program, d.location, sigma_of(d.state)),
+        Err(e) => StepRes::Fail(e),
+    }
+}
+
+/// the guard of the edge (h, t) of f (None = unconditional)
+pub open spec fn cond_of(f: il::Function, h: usize, t: usize) -> Option<Expression> {
+    f.control_flow_graph.edges_view()[(h, t)].condition
+}
+
+/// "the guard evaluates to one"
+pub open spec fn guard_one(c: Expression, s: Sigma) -> bool {
+    eval_spec(c, aenv(s.scalars)) matches EvalR::Val(w, v) && v == 1
+}
+
+/// the guard evaluates, to something other than one
+pub open spec fn guard_not_one(c: Expression, s: Sigma) -> bool {
+    eval_spec(c, aenv(s.scalars)) matches EvalR::Val(w, v) && v != 1
+}
+
+/// successor `l2` of `l` may be taken in state `s1`: the next instruction of the block, an unconditional edge, or
+/// an edge whose guard evaluates to one
+pub open spec fn takes(f: il::Function, l: Loc, s1: Sigma, l2: Loc) -> bool {
+    succ(f, l, l2) && (l2 matches Loc::Edge(h, t) ==> (cond_of(f, h, t) matches Some(c) ==> guard_one(c, s1)))
+}
+
+/// successor `l2` is an edge whose guard evaluates to something other than one
+pub open spec fn blocked(f: il::Function, s1: Sigma, l2: Loc) -> bool {
+    l2 matches Loc::Edge(h, t) && cond_of(f, h, t) matches Some(c) && guard_not_one(c, s1)
+}
+
+/// "no guard holds": every successor is blocked (in particular: there is none)
+pub open spec fn none_taken(f: il::Function, l: Loc, s1: Sigma) -> bool {
+    forall|l2: Loc| #[trigger] succ(f, l, l2) ==> blocked(f, s1, l2)
+}
+
+/// the guard of successor edge `l2` cannot be evaluated and `e` says why (an ill-sorted / ill-typed guard may be
+/// reported with any error)
+pub open spec fn guard_fault(f: il::Function, s1: Sigma, l2: Loc, e: Error) -> bool {
+    l2 matches Loc::Edge(h, t) && cond_of(f, h, t) matches Some(c) && (
+        !(expr_wf(c) && atyped_in(s1.scalars, c))
+        || (!(eval_spec(c, aenv(s1.scalars)) is Val) && err_is(e, eval_fault(eval_spec(c, aenv(s1.scalars))))))
+}
+
+pub open spec fn guard_fails(f: il::Function, l: Loc, s1: Sigma, e: Error) -> bool {
+    exists|l2: Loc| #[trigger] succ(f, l, l2) && guard_fault(f, s1, l2, e)
+}
+
+/// `l` has several successors and one of them is an edge WITHOUT a condition: the guards of such a program
+/// cannot be mutually exclusive; the executor reports an error
+pub open spec fn missing_cond(f: il::Function, l: Loc) -> bool {
+    exists|l2: Loc, l3: Loc| #![trigger succ(f, l, l2), succ(f, l, l3)]
+        succ(f, l, l2) && succ(f, l, l3) && l2 != l3 && uncond_edge(f, l2)
+}
+
+/// `l2` is an edge without condition
+pub open spec fn uncond_edge(f: il::Function, l2: Loc) -> bool {
+    l2 matches Loc::Edge(h, t) && cond_of(f, h, t) is None
+}
+
+/// moving on from location `l` of `f` in state `s1` (after the operation, if any): to a successor that may be
+/// taken, with the state unchanged; an error exactly when no guard holds / a guard cannot be evaluated / the
+/// block is ill-formed
+pub open spec fn select_allows(p: il::Program, f: il::Function, l: Loc, s1: Sigma, res: StepRes) -> bool {
+    match res {
+        StepRes::Next(p1, l1, s2) => p1 == p && s2 == s1 && exists|l2: Loc| #[trigger] takes(f, l, s1, l2) && l1 == ploc(f, l2),
+        StepRes::Fail(e) =>
+            (e is ExecutorNoValidLocation && none_taken(f, l, s1))
+            || guard_fails(f, l, s1, e)
+            || ((e is Custom || e is ExecutorNoEdgeCondition) && missing_cond(f, l)),
+    }
+}
+
+/// `l1` denotes an instruction with address `a` in a function the program holds
+pub open spec fn addr_loc(p: il::Program, a: u64, l1: il::ProgramLocation) -> bool {
+    l1.function_index is Some && l1.function_location is Instruction && ({
+        let k = l1.function_index->Some_0;
+        let b = l1.function_location->Instruction_0;
+        let i = l1.function_location->Instruction_1;
+        p.functions@.contains_key(k) && instr_valid(*p.functions@[k], b, i) && has_addr(*p.functions@[k], b, i, a)
+    })
+}
+
+pub open spec fn extended(p: il::Program, p1: il::Program) -> bool {
+    exists|f: il::Function| #[trigger] program_extended(p, f, p1)
+}
+
+/// an indirect branch to address `a` in state `s1`: the state is unchanged and the new location is an instruction
+/// with that address - in the program as it is, or, when the program has no such instruction, in the program
+/// extended by ONE newly lifted function (existing functions untouched; the lifter itself is assumed)
+pub open spec fn branch_allows(p: il::Program, a: u64, s1: Sigma, res: StepRes) -> bool {
+    match res {
+        StepRes::Next(p1, l1, s2) => s2 == s1 && addr_loc(p1, a, l1) && (p1 == p || (program_no_addr(p, a) && extended(p, p1))),
+        StepRes::Fail(e) => program_no_addr(p, a) && (e is ExecutorLiftFail || e is Custom),
+    }
+}
+
+/// the instruction `l` of `f` carrying operation `op`: run `op_spec`, then move on
+pub open spec fn instr_allows(p: il::Program, f: il::Function, l: Loc, op: Operation, s: Sigma, res: StepRes) -> bool {
+    // errors on ill-sorted / ill-typed operands are not specified further (a result is never guessed, though)
+    (res is Fail && !(op_wf(op) && op_atyped(s.scalars, op)))
+    || match op_spec(op, s) {
+        OpResult::Fault(k) => res matches StepRes::Fail(e) && err_is(e, k),
+        OpResult::Next(s1, Flow::FallThrough) => select_allows(p, f, l, s1, res),
+        OpResult::Next(s1, Flow::Branch(a)) => branch_allows(p, a, s1, res),
+    }
+}
+
+pub open spec fn instr_case(p: il::Program, f: il::Function, b: usize, i: usize, s: Sigma, res: StepRes) -> bool {
+    exists|op: Operation| #[trigger] op_at(f, b, i, op) && instr_allows(p, f, Loc::Instruction(b, i), op, s, res)
+}
+
+/// an edge is followed by its unique forward location (the start of its tail block); nothing else changes
+pub open spec fn edge_case(p: il::Program, f: il::Function, h: usize, t: usize, s: Sigma, res: StepRes) -> bool {
+    res matches StepRes::Next(p1, l1, s2) && p1 == p && s2 == s
+    && exists|l2: Loc| #[trigger] succ(f, Loc::Edge(h, t), l2) && l1 == ploc(f, l2)
+}
+
+/// one step of the executor at location `l` of program `p` in state `s`
+pub open spec fn step_allows(p: il::Program, l: il::ProgramLocation, s: Sigma, res: StepRes) -> bool {
+    match loc_fn(p, l) {
+        None => res matches StepRes::Fail(e) && e is ProgramLocationApplication,
+        Some(f) =>
+            if !fl_applies(f, l.function_location) {
+                res matches StepRes::Fail(e) && e is FunctionLocationApplication
+            } else {
+                match l.function_location {
+                    il::FunctionLocation::Instruction(b, i) => instr_case(p, f, b, i, s, res),
+                    il::FunctionLocation::Edge(h, t) => edge_case(p, f, h, t, s, res),
+                    il::FunctionLocation::EmptyBlock(b) => select_allows(p, f, Loc::EmptyBlock(b), s, res),
+                }
+            },
+    }
+}
+
+/// the set of possible results of one step
+pub open spec fn step_spec(p: il::Program, l: il::ProgramLocation, s: Sigma) -> ISet<StepRes> {
+    ISet::new(|res: StepRes| step_allows(p, l, s, res))
+}
+
+// ---- lemmas used by `step` ----------------------------------------------------------------------------------------
+
+pub proof fn lemma_fl_loc_inv(l2: Loc)
+    ensures fl_loc(loc_fl(l2)) == l2,
+{
+}
+
+/// the borrowed location obtained by applying the driver's location
+pub proof fn lemma_applied(p: il::Program, l: il::ProgramLocation, x: il::RefProgramLocation)
+    requires
+        p.program_wf(), prog_ok(p), loc_ok(p, l),
+        l.function_index matches Some(k) && p.functions@.contains_key(k) && *x.function == *p.functions@[k],
+        fl_applies(*x.function, l.function_location),
+        (*x.function).function_wf() ==> loc_of(x.function_location) == fl_loc(l.function_location) && rfl_points_in(*x.function, x.function_location),
+        (*x.function).function_wf() && loc_valid(*x.function, fl_loc(l.function_location)) ==> x.rpl_wf(),
+    ensures
+        loc_fn(p, l) == Some(*x.function),
+        x.function.index == l.function_index,
+        (*x.function).function_wf(), fn_ok(*x.function), x.rpl_wf(),
+        l.function_location == loc_fl(x.loc()),
+        p.holds_function(*x.function),
+{
+    let k = l.function_index->Some_0;
+    assert((*p.functions@[k]).function_wf() && (*p.functions@[k]).index == Some(k));
+    assert(fn_ok(*p.functions@[k]));
+    p.lemma_holds_function(k);
+    match l.function_location {
+        il::FunctionLocation::Instruction(b, i) => {}
+        il::FunctionLocation::Edge(h, t) => {}
+        il::FunctionLocation::EmptyBlock(b) => {}
+    }
+}
+
+/// the instruction location `Instruction(b, ins)` of `f`
+pub proof fn lemma_instr_facts(f: il::Function, b: &il::Block, ins: &il::Instruction)
+    requires fn_ok(f), rfl_in(f, il::RefFunctionLocation::Instruction(b, ins)),
+    ensures op_sane(ins.operation), op_at(f, b.index, ins.index, ins.operation),
+{
+    let q = choose|q: int| 0 <= q < b.instructions@.len() && #[trigger] b.instructions@[q] == *ins;
+    let blk = f.control_flow_graph.graph.vertices@[b.index];
+    assert(block_ok(blk));
+    assert(op_sane(blk.instructions@[q].operation));
+    assert(instr_at(blk, q, ins.index));
+}
+
+/// an edge location `Edge(e)` of `f`
+pub proof fn lemma_edge_facts(f: il::Function, e: &il::Edge)
+    requires fn_ok(f), rfl_in(f, il::RefFunctionLocation::Edge(e)),
+    ensures edge_ok(*e), cond_of(f, e.head, e.tail) == e.condition,
+{
+    assert(edge_ok(f.control_flow_graph.graph.edges@[(e.head, e.tail)]));
+}
+
+/// a successor that is not an edge (the next instruction of the block) is the only successor
+pub proof fn lemma_non_edge_succ_unique(f: il::Function, l: Loc, l2: Loc)
+    requires f.function_wf(), !(l is Edge), succ(f, l, l2), !(l2 is Edge),
+    ensures forall|l3: Loc| #[trigger] succ(f, l, l3) ==> l3 == l2,
+{
+    match l {
+        Loc::Instruction(b, i) => {
+            let blk = f.control_flow_graph.blocks_view()[b];
+            let q = choose|q: int| #[trigger] instr_at(blk, q, i) && (
+                if q + 1 < blk.instructions@.len() { l2 == Loc::Instruction(b, blk.instructions@[q + 1].index) } else { is_out_edge(f, b, l2) });
+            lemma_succ_instr_at(f, b, q, i);
+        }
+        _ => {}
+    }
+}
+
+/// a listed successor `v[j]` of `x`: it is a successor, a location of `f`, and its program location is `ploc`
+pub proof fn lemma_listed(p: il::Program, f: il::Function, l: Loc, v: Seq<il::RefProgramLocation>, j: int)
+    requires
+        lists_rpls(v, f, |l2: Loc| succ(f, l, l2)), 0 <= j < v.len(),
+        p.holds_function(f),
+    ensures
+        succ(f, l, v[j].loc()), rfl_in(f, v[j].function_location), *v[j].function == f,
+        own_loc(v[j]) == ploc(f, v[j].loc()),
+        loc_valid(f, v[j].loc()),
+{
+    assert((|l2: Loc| succ(f, l, l2))(loc_of(v[j].function_location)));
+    lemma_rfl_in_valid(f, v[j].function_location);
+}
+
+/// when the listed successors are all blocked, no guard holds
+pub proof fn lemma_none_taken(f: il::Function, l: Loc, s1: Sigma, v: Seq<il::RefProgramLocation>)
+    requires
+        lists_rpls(v, f, |l2: Loc| succ(f, l, l2)),
+        forall|j: int| 0 <= j < v.len() ==> blocked(f, s1, (#[trigger] v[j]).loc()),
+    ensures none_taken(f, l, s1),
+{
+    assert forall|l2: Loc| #[trigger] succ(f, l, l2) implies blocked(f, s1, l2) by {
+        assert((|l2: Loc| succ(f, l, l2))(l2));
+        let j = choose|j: int| 0 <= j < v.len() && loc_of((#[trigger] v[j]).function_location) == l2;
+        assert(blocked(f, s1, v[j].loc()));
+    }
+}
+
+/// in the guard loop every listed successor is an edge: a non-edge successor is the only one, and then the
+/// single-successor fast path was taken
+pub proof fn lemma_loop_edge(f: il::Function, l: Loc, v: Seq<il::RefProgramLocation>, j: int)
+    requires
+        f.function_wf(), !(l is Edge), lists_rpls(v, f, |l2: Loc| succ(f, l, l2)), 0 <= j < v.len(),
+        !(v[j].loc() is Edge),
+    ensures v.len() == 1,
+{
+    assert((|l2: Loc| succ(f, l, l2))(loc_of(v[j].function_location)));
+    lemma_non_edge_succ_unique(f, l, v[j].loc());
+    if v.len() >= 2 {
+        let m = if j == 0 { 1int } else { 0int };
+        assert((|l2: Loc| succ(f, l, l2))(loc_of(v[m].function_location)));
+        assert(v[m].loc() == v[j].loc());
+        if m < j { assert(loc_of(v[m].function_location) != loc_of(v[j].function_location)); }
+        else { assert(loc_of(v[j].function_location) != loc_of(v[m].function_location)); }
+    }
+}
+
+/// an unconditional edge met in the guard loop: there are several successors
+pub proof fn lemma_missing_cond(f: il::Function, l: Loc, v: Seq<il::RefProgramLocation>, j: int)
+    requires
+        lists_rpls(v, f, |l2: Loc| succ(f, l, l2)), 0 <= j < v.len(), v.len() >= 2,
+        uncond_edge(f, v[j].loc()),
+    ensures missing_cond(f, l),
+{
+    let m = if j == 0 { 1int } else { 0int };
+    assert((|l2: Loc| succ(f, l, l2))(loc_of(v[j].function_location)));
+    assert((|l2: Loc| succ(f, l, l2))(loc_of(v[m].function_location)));
+    if m < j { assert(loc_of(v[m].function_location) != loc_of(v[j].function_location)); }
+    else { assert(loc_of(v[j].function_location) != loc_of(v[m].function_location)); }
+    assert(succ(f, l, v[j].loc()) && succ(f, l, v[m].loc()) && v[j].loc() != v[m].loc());
+}
+
+/// the location `from_address` found, as an owned location
+pub proof fn lemma_addr_loc(p: il::Program, a: u64, x: il::RefProgramLocation)
+    requires p.program_wf(), p.holds_function(*x.function), x.rpl_wf(), rfl_has_addr(x.function_location, a),
+    ensures
+        addr_loc(p, a, own_loc(x)),
+        loc_ok(p, own_loc(x)),
+{
+    reveal(il::Program::holds_function);
+    let k = choose|k: usize| #![trigger p.functions@.contains_key(k)] p.functions@.contains_key(k) && *p.functions@[k] == *x.function;
+    assert((*p.functions@[k]).index == Some(k));
+    lemma_rfl_in_valid(*x.function, x.function_location);
+    match x.function_location {
+        il::RefFunctionLocation::Instruction(b, ins) => {
+            let q = choose|q: int| 0 <= q < b.instructions@.len() && #[trigger] b.instructions@[q] == *ins;
+            let blk = (*x.function).control_flow_graph.graph.vertices@[b.index];
+            assert(instr_at(blk, q, ins.index));
+        }
+        _ => {}
+    }
+}
+
+/// a program extended by a function that is `fn_ok` stays `prog_ok`
+pub proof fn lemma_prog_ok_extended(p: il::Program, f: il::Function, p1: il::Program)
+    requires prog_ok(p), fn_ok(f), program_extended(p, f, p1),
+    ensures prog_ok(p1),
+{
+    let k = p.next_index;
+    assert forall|j: usize| #![trigger p1.functions@[j]] p1.functions@.contains_key(j) implies fn_ok(*p1.functions@[j]) by {
+        if j == k {
+            assert((*p1.functions@[k]).control_flow_graph == f.control_flow_graph);
+        } else {
+            assert(p.functions@.contains_key(j));
+            assert(p1.functions@[j] == p.functions@[j]);
+            assert(fn_ok(*p.functions@[j]));
+        }
+    }
+}
 
 /// THE ONE CALL INTO THE LIFTERS (FFI: capstone + the per-architecture translators), wrapped:
 /// `self.architecture.translator().translate_function(state.memory(), address)` of Driver::step's lifting arm.
 /// ASSUMED contract (not verified; listed in the evidence): the call returns an error or SOME function, and a
 /// returned function satisfies the IL data invariants the rest of the step relies on - `function_wf` (unit C15:
-/// what `RefProgramLocation::from_address` requires of every function of the program) and `fn_ok` (well-sorted
-/// expressions with well-formed constant leaves).  Nothing is assumed about WHICH function comes back.
+/// what `RefProgramLocation::from_address` requires of every function of the program) and `fn_ok` (constant
+/// leaves are well-formed constants, widths are in 1..=65536).  Nothing is assumed about WHICH function comes back.
 #[verifier::external_body]
 pub fn lift_function(architecture: &RC<dyn Architecture>, memory: &Memory, address: u64) -> (r: Result<il::Function, Error>)
-    ensures r matches Ok(f) ==> f.function_wf(),
+    ensures r matches Ok(f) ==> f.function_wf() && fn_ok(f),
 {
     architecture.translator().translate_function(memory, address)
 }
@@ -26,21 +428,139 @@ impl Driver {
 //@ end
 
 //@ fn impl Driver :: fn step
+//@ attr #[verifier::loop_isolation(false)]
+//@ attr #[verifier::spinoff_prover]
 //@ rewrite 1 `self .architecture .translator() .translate_function(state.memory(), address)` => `lift_function(&self.architecture, state.memory(), address)` ## R-ffi-standin: exactly the call into the lifters (FFI) is routed through the stand-in `lift_function` above, whose body is this very call and whose contract is ASSUMED
 //@ rewrite 1 `RC::make_mut(` => `rc_cow::rc_make_mut(` ## R-std-standin: Rc::make_mut replaced by the stand-in of prelude/rc_cow.rs (same argument; the stand-in's body calls the real `Rc::make_mut`)
 //@ rewrite 2 `for location in locations {` => `for location in it: locations {` ## R-ghost-iter-name: names the ghost iterator of the for loop so that invariants can mention it; no executable change
-//@ closure 0 |e: &il::Edge| -> (c0: bool)
-    ensures c0 == (e.condition is None),
-//@ closure 1 |e: Error| -> (e1: Error)
+//@ closure 0 |e: Error| -> (e1: Error)
     ensures e1 is ExecutorLiftFail,
-//@ closure 2 |e: &il::Edge| -> (c2: bool)
-    ensures c2 == (e.condition is None),
 //@ spec
     requires
-        (*self.program).program_wf(),
+        driver_wf(self),
         (*self.program).next_index < usize::MAX,
-        store_wf(store_of(self.state)),
-        self.state.memory.wf(),
+        step_fits(*self.program, self.location, sigma_of(self.state)),
+    ensures
+        /*@bad_location*/ !loc_applies(*self.program, self.location) ==> step_allows(*self.program, self.location, sigma_of(self.state), step_res(r)),
+        /*@instruction*/ (loc_applies(*self.program, self.location) && self.location.function_location is Instruction)
+            ==> step_allows(*self.program, self.location, sigma_of(self.state), step_res(r)),
+        /*@edge*/ (loc_applies(*self.program, self.location) && self.location.function_location is Edge)
+            ==> step_allows(*self.program, self.location, sigma_of(self.state), step_res(r)),
+        /*@empty_block*/ (loc_applies(*self.program, self.location) && self.location.function_location is EmptyBlock)
+            ==> step_allows(*self.program, self.location, sigma_of(self.state), step_res(r)),
+        /*@inv*/ r matches Ok(d) ==> driver_wf(d),
+//@ enter
+    broadcast use rc_cow::axiom_rc_cloned;
+    let ghost p0 = pval(self.program);
+    let ghost l0 = self.location;
+    let ghost st0 = store_of(self.state);
+    let ghost s0 = sigma_of(self.state);
+    proof { lemma_env(st0); }
+//@ before 0 `match *location.function_location() {`
+    let ghost f = *location.function;
+    let ghost lc = location.loc();
+    proof {
+        lemma_applied(p0, l0, location);
+        lemma_fl_loc_inv(lc);
+    }
+//@ before 0 `let successor = self.state.execute(`
+    let ghost op = instruction.operation;
+    proof {
+        lemma_instr_facts(f, location.function_location->Instruction_0, instruction);
+        lemma_op_atyped(st0, op);
+    }
+//@ before 0 `match successor.type_().clone() {`
+    let ghost st1 = store_of(successor.state);
+    let ghost s1 = sigma_of(successor.state);
+    proof { lemma_env(st1); }
+//@ after 0 `let locations = location.forward()?;`
+    let ghost v = locations@;
+//@ before 0 `Ok(Driver::new( self.program.clone(), locations[0].clone().into(), successor.into(),`
+    let ghost tk = takes(f, lc, s1, v[0].loc());
+    proof {
+        lemma_listed(p0, f, lc, v, 0);
+        if v[0].function_location is Edge { lemma_edge_facts(f, v[0].function_location->Edge_0); }
+    }
+//@ loop 0
+    invariant
+        /*@seq*/ it.seq() == v,
+        /*@blocked*/ forall|j: int| 0 <= j < it.index@ ==> blocked(f, s1, (#[trigger] v[j]).loc()),
+//@ before 0 `if let il::RefFunctionLocation::Edge(edge) = *location.function_location() {`
+    proof {
+        lemma_listed(p0, f, lc, v, it.index@);
+        if !(location.loc() is Edge) { lemma_loop_edge(f, lc, v, it.index@); }
+    }
+//@ before 0 `if successor .state() .symbolize_and_eval(`
+    let ghost tk = takes(f, lc, s1, location.loc());
+    proof {
+        lemma_edge_facts(f, edge);
+        if edge.condition is None {
+            lemma_missing_cond(f, lc, v, it.index@);
+        } else {
+            lemma_atyped(st1, edge.condition->Some_0);
+        }
+    }
+//@ before 0 `Err(Error::ExecutorNoValidLocation)`
+    proof { lemma_none_taken(f, lc, s1, v); }
+//@ before 0 `match il::RefProgramLocation::from_address(&self.program, address) {`
+    proof {
+        assert forall|x: il::RefProgramLocation| p0.holds_function(*x.function) && x.rpl_wf() && #[trigger] rfl_has_addr(x.function_location, address)
+            implies addr_loc(p0, address, own_loc(x)) && loc_ok(p0, own_loc(x)) by {
+            lemma_addr_loc(p0, address, x);
+        }
+    }
+//@ before 0 `rc_cow::rc_make_mut(&mut program).add_function(function);`
+    let ghost gf = function;
+//@ before 0 `let location: il::ProgramLocation =`
+    let ghost p1 = pval(program);
+    proof {
+        assert(program_extended(p0, gf, p1));
+        lemma_prog_ok_extended(p0, gf, p1);
+        assert forall|x: il::RefProgramLocation| p1.holds_function(*x.function) && x.rpl_wf() && #[trigger] rfl_has_addr(x.function_location, address)
+            implies addr_loc(p1, address, own_loc(x)) && loc_ok(p1, own_loc(x)) by {
+            lemma_addr_loc(p1, address, x);
+        }
+    }
+//@ after 1 `let locations = location.forward()?;`
+    let ghost v = locations@;
+    proof {
+        let t = lc->Edge_1;
+        let blk = f.control_flow_graph.blocks_view()[t];
+        let l_start = if blk.instructions@.len() == 0 { Loc::EmptyBlock(t) } else { Loc::Instruction(t, blk.instructions@[0].index) };
+        lemma_rfl_in_valid(f, location.function_location);
+        assert(is_block_start(f, t, l_start));
+        assert((|l2: Loc| succ(f, lc, l2))(l_start));
+        lemma_listed(p0, f, lc, v, 0);
+    }
+//@ after 2 `let locations = location.forward()?;`
+    let ghost v = locations@;
+//@ before 1 `return Ok(Driver::new(`
+    let ghost tk = takes(f, lc, s0, v[0].loc());
+    proof {
+        lemma_listed(p0, f, lc, v, 0);
+        if v[0].function_location is Edge { lemma_edge_facts(f, v[0].function_location->Edge_0); }
+    }
+//@ loop 1
+    invariant
+        /*@seq*/ it.seq() == v,
+        /*@blocked*/ forall|j: int| 0 <= j < it.index@ ==> blocked(f, s0, (#[trigger] v[j]).loc()),
+//@ before 1 `if let il::RefFunctionLocation::Edge(edge) = *location.function_location() {`
+    proof {
+        lemma_listed(p0, f, lc, v, it.index@);
+        if !(location.loc() is Edge) { lemma_loop_edge(f, lc, v, it.index@); }
+    }
+//@ before 0 `if self .state .symbolize_and_eval(`
+    let ghost tk = takes(f, lc, s0, location.loc());
+    proof {
+        lemma_edge_facts(f, edge);
+        if edge.condition is None {
+            lemma_missing_cond(f, lc, v, it.index@);
+        } else {
+            lemma_atyped(st0, edge.condition->Some_0);
+        }
+    }
+//@ before 1 `Err(Error::ExecutorNoValidLocation)`
+    proof { lemma_none_taken(f, lc, s0, v); }
 //@ end
 
 //@ fn impl Driver :: fn program
